@@ -13,7 +13,7 @@ _REPO = _os.environ.get('VERIF_REPO', '/repo')
 def _atoms_loop():
     tree = _ast.parse(open(_os.path.join(_REPO, F)).read())
     fn = next(st for st in tree.body if isinstance(st, _ast.FunctionDef) and st.name == 'write_molecule_itp')
-    loop = next(n for n in _ast.walk(fn) if isinstance(n, _ast.For) and 'correspondence[' in _ast.unparse(n) and 'sorted_nodes' in _ast.unparse(n.iter))
+    loop = next(n for n in _ast.walk(fn) if isinstance(n, _ast.For) and 'sorted_nodes' in _ast.unparse(n.iter) and '{atomname:' in _ast.unparse(n))
     template = max((c.value for c in _ast.walk(loop) if isinstance(c, _ast.Constant) and isinstance(c.value, str)), key=len)
     return fn, loop, template
 
@@ -48,18 +48,23 @@ def setup_atoms(cx):
         return ('atomline', idx, atom.__dict__['node'])
     eng.format_hooks[template] = fmt
     out = Obj('outfile')
-    out.attrs['write'] = Builtin(lambda e, line: list_append(e, EVENTS, (line[1], line[2])), 'write')
+    # atom lines are recorded; other text (section header, user-supplied pre-section lines) is not an atom line
+    out.attrs['write'] = Builtin(lambda e, line: list_append(e, EVENTS, (line[1], line[2])) if isinstance(line, tuple) else None, 'write')
+    pre = Obj('pre_section_lines', get=Builtin(lambda e, k, d=None: cx.val('pre_lines', TSeq(TStr)), 'pre_section_lines.get'))
     copy_ = Obj('copy')
     copy_.attrs['copy'] = Builtin(lambda e, x: e.call(x.attrs['__copy__'], [], {}), 'copy.copy')
     cx.spec_env['copy'] = copy_
-    return dict(molecule=molecule, outfile=out, correspondence=Box(TMap(Key, TInt)), max_length=Obj('max_length'))
+    import itertools as _it
+    nodes.__dict__['iter'] = cx.val('node_order', TSeq(Key))      # iteration over molecule.nodes: insertion order, not sorted order
+    return dict(molecule=molecule, outfile=out, max_length=Obj('max_length'), pre_section_lines=pre, seen_sections=Box(TSet(TStr)))
 
 
 atoms_loop = FunctionContract(
     F, 'write_molecule_itp', 'C02', short='write_molecule_itp[atoms]', setup=setup_atoms, spec_env=dict(Key=Key),
-    region=dict(start="for idx, original_idx in enumerate(molecule.sorted_nodes",
-                end="for line in post_section_lines.get('atoms', []):"),
-    requires=["forall(lambda i: implies(0 <= i and i < len(order), opos(order[i]) == i))"],      # no node twice
+    region=dict(start="correspondence =", end="for line in post_section_lines.get('atoms', []):"),
+    locals=dict(correspondence=TMap(Key, TInt)),
+    requires=["forall(lambda i: implies(0 <= i and i < len(order), opos(order[i]) == i))",       # no node twice
+              "len(old(EVENTS)) == 0"],
     ensures=[
         # exactly N atom lines, the k-th numbered k and stating the attributes of the k-th node of sorted_nodes
         "len(EVENTS) == len(order)",
@@ -69,12 +74,13 @@ atoms_loop = FunctionContract(
         "forall(lambda n: implies(n in correspondence, 0 <= opos(n) and opos(n) < len(order) and order[opos(n)] == n), Key)",
     ],
     modifies=['EVENTS', 'correspondence'],
-    loops={'L1': LoopSpec(inv=[
+    loops={'L1': LoopSpec(inv=["len(EVENTS) == 0", "len(correspondence) == 0"], modifies=[]),      # the user's pre-section lines
+           'L2': LoopSpec(inv=[
         "len(EVENTS) == _i",
         "forall(lambda k: implies(0 <= k and k < _i, EVENTS[k][0] == k + 1 and EVENTS[k][1] == order[k]))",
         "forall(lambda k: implies(0 <= k and k < _i, order[k] in correspondence and correspondence[order[k]] == k + 1))",
         "forall(lambda n: implies(n in correspondence, 0 <= opos(n) and opos(n) < _i and order[opos(n)] == n), Key)"],
-        modifies=['EVENTS', 'correspondence'])},
+        modifies=['EVENTS', 'correspondence'], locals=dict(correspondence=TMap(Key, TInt)))},
     canary=[("enumerate(molecule.sorted_nodes, start=1)", "enumerate(molecule.sorted_nodes, start=0)"),
             ("correspondence[original_idx] = idx", "correspondence[original_idx] = idx + 1")],
 )
